@@ -420,6 +420,38 @@ def dc5(ctx):
                   % (callee, mod.loc(bad) if bad is not None else ''), mod.loc(c))
 
 
+    # the class that is registered and returned is the one the standard library hands back:
+    # with slots=True dataclasses.dataclass builds a NEW class, the argument stays un-slotted
+    for fname in ('dataclass', 'make_dataclass'):
+        fn = mod.func(fname)
+        std = [c for c in calls_under(fn) if call_name(c) in ('dataclasses.dataclass', 'dataclasses.make_dataclass')]
+        ctx.require(std, '%s: no call of the standard library decorator' % fname)
+        parent = {}
+        for n in ast.walk(fn):
+            for c in ast.iter_child_nodes(n):
+                parent[id(c)] = n
+        for c in std:
+            p_ = parent.get(id(c))
+            bound = None
+            if isinstance(p_, ast.Assign) and len(p_.targets) == 1 and isinstance(p_.targets[0], ast.Name):
+                bound = p_.targets[0].id
+            elif isinstance(p_, ast.Return):
+                bound = '<returned>'
+            elif isinstance(p_, ast.Call) and call_name(p_) in mod.funcs:
+                bound = '<passed on>'
+            ok = bound is not None
+            if ok and bound not in ('<returned>', '<passed on>'):
+                # the bound name is what flows on (to the registration helper or the return)
+                later = [n for n in walk(fn) if isinstance(n, ast.Name) and n.id == bound and
+                         isinstance(n.ctx, ast.Load) and getattr(n, 'lineno', 0) > c.lineno]
+                ok = bool(later)
+            ctx.check('%s/uses-the-class-the-stdlib-returns' % fname, ok,
+                      '%s: the result of %s is what is registered and returned' % (fname, call_name(c)),
+                      '%s calls %s and drops its result: with slots=True the standard library returns a '
+                      'new class, so the class that is registered and handed back is not the dataclass '
+                      'the decorator arguments describe' % (fname, call_name(c)), mod.loc(c))
+
+
 # ---------------------------------------------------------------------------------------------
 BACKENDS = ('optree.integration.numpy', 'optree.integration.jax', 'optree.integration.torch')
 RAVEL_FUNCS = ['tree_ravel', '_tree_unravel', '_ravel_leaves', '_unravel_empty',
